@@ -1076,6 +1076,11 @@ def install(it):
     M['regexp.MatchString'] = m_rxMatchString
     M['(*regexp.Regexp).MatchString'] = lambda it_, a: rx_match(a[0].base.v.data, a[1])
     M['(*regexp.Regexp).String'] = lambda it_, a: a[0].base.v.data
+    def m_rxMatchBytes(it_, a):
+        sl = a[1]
+        els = [] if sl.arr is None else list(sl.arr.a[sl.off:sl.off + sl.len])
+        return rx_match(a[0].base.v.data, it.mkstr(els))
+    M['(*regexp.Regexp).Match'] = m_rxMatchBytes
 
     it.uf_pow = z3.Function('math.Pow', z3.Float64(), z3.Float64(), z3.Float64())
     def m_pow(it_, a):
